@@ -150,6 +150,14 @@ reg('C16',
     'The property quantifies over all action sequences; this is sampling only.',
     'float32; action sequences expanded from a drawn key; brax.v1 stubbed', 'DESIGN.md section 4 C16')
 
+reg('C07',
+    'property-based testing (Hypothesis model/history generators): metamorphic relations between batched and solo runs, between a batch and the same batch with all other members replaced, and between eager and jit evaluation',
+    'No counter-example: for generated models (with and without contacts) member i of jit(vmap(init + 2 steps)) equals the solo run (1e-9; 1e-6 with contacts) and is bit-identical when '
+    'every other member is replaced, eager equals jit; through training.wrap a scripted environment, PipelineEnvs built from generated models and two bundled environments give every '
+    'member the same history as a solo batch-of-one run and a history independent of the other members\' keys and actions across episode ends; stepping eagerly twice from one state '
+    'object equals the jitted step; under the domain randomisation wrapper every member\'s reset and step equal pipeline.init/step on its own randomised system. Sampling, not proof.',
+    'float64 except the scripted environment (float32); brax.v1 stubbed', 'DESIGN.md section 4 C07')
+
 PENDING = {}
 
 
